@@ -358,13 +358,21 @@ def c08(run: Any) -> list[Finding]:
         for flat in [n for n in node.setup_nodes if n.is_flat()]:
             if worker.net.long_suffix in flat.incompatible_workers:
                 out.append((f"C08 {sc} excluded worker", f"{wid} executed {ev['shortname']} although its restrictions exclude it", {}))
+    out += foreign_connections(run, "C08")
+    return out
+
+
+def foreign_connections(run: Any, pid: str) -> list[Finding]:
+    """State control requests of a worker go through that worker's own connection."""
+    out: list[Finding] = []
+    sc = run.scenario.name
     for ev in run.trace:
-        if ev["kind"] != "door" or ev.get("session") is None or ev["worker"] not in graph.workers:
+        if ev["kind"] != "door" or ev.get("session") is None or ev["worker"] not in run.graph.workers:
             continue
-        w = graph.workers[ev["worker"]]
+        w = run.graph.workers[ev["worker"]]
         own = (w.params["nets_shell_host"], str(w.params["nets_shell_port"]))
         if ev["session"] != own and ev["session"] != (None, "None"):
-            out.append((f"C08 {sc} foreign connection for state control", f"state {ev['action']} of {ev['worker']} went through the connection {ev['session']}, the worker's own is {own}", {}))
+            out.append((f"{pid} {sc} foreign connection for state control", f"state {ev['action']} of {ev['worker']} went through the connection {ev['session']}, the worker's own is {own}", {}))
     return out
 
 
